@@ -26,3 +26,21 @@ Definition hstep (from_counter : bool) (s : hst) (l : hlabel) : hst :=
   end.
 Definition hinit : hst := {| counter := 0; inside_ := [] |}.
 Definition hrun (f : bool) (p : list hlabel) : hst := fold_left (hstep f) p hinit.
+
+(* ---- over the whole life of the activity ----
+   The answer of a token that an interrupting boundary event has withdrawn may arrive much later; it is recognised as
+   stale only because its number is no longer among those inside. So a number must never be issued twice, not only
+   never be held by two tokens at once.
+     set_back = false : the counter only ever counts up (the sources: Gen/Facts.v src_token_counter_never_set_back);
+     set_back = true  : it starts again at 0 whenever a token enters an empty activity. *)
+Record hst2 := { counter2 : nat; inside2 : list nat; issued2 : list nat }.
+
+Definition hstep2 (set_back : bool) (s : hst2) (l : hlabel) : hst2 :=
+  match l with
+  | HEnter =>
+      let c := if set_back && (match inside2 s with [] => true | _ => false end) then 0 else counter2 s in
+      {| counter2 := S c; inside2 := inside2 s ++ [S c]; issued2 := issued2 s ++ [S c] |}
+  | HLeave k => {| counter2 := counter2 s; inside2 := remove_nth (inside2 s) k; issued2 := issued2 s |}
+  end.
+Definition hinit2 : hst2 := {| counter2 := 0; inside2 := []; issued2 := [] |}.
+Definition hrun2 (f : bool) (p : list hlabel) : hst2 := fold_left (hstep2 f) p hinit2.
